@@ -24,7 +24,8 @@
             K_WAIT times in a row while no Add is in flight has returned (Wait never waits for
             a call that has not started).  No call panics.                                  *)
 From Coq Require Import List Arith ZArith Bool.
-From GT Require Import Base.Conc WGModel.
+From GT Require Import Base.Conc.
+From GT Require Import WGModel.
 Import ListNotations.
 Local Open Scope Z_scope.
 
